@@ -5,7 +5,10 @@
 //! descriptor owned by somebody else and trips the interposer's ledger. At quiescent points
 //! (every handle dropped) the descriptor table, shared mappings, TMPDIR and /dev/shm must equal
 //! the post-warm-up baseline. At seeded points inside a program every library descriptor must
-//! carry FD_CLOEXEC and an unrelated exec'd child must see none of them.
+//! carry FD_CLOEXEC and an unrelated exec'd child must see none of them. A second phase races
+//! the spawning of unrelated children against threads that create and receive descriptors all the
+//! time: a descriptor that is inheritable even for an instant after its creation shows up in the
+//! listing of a child that was forked in that instant.
 
 use crate::prog::{Bias, Interp};
 use crate::util::*;
@@ -39,6 +42,9 @@ fn shm_entries() -> BTreeSet<String> {
     }
     s
 }
+
+/// Case number under which the spawn-race phase is replayed.
+const RACE_CASE: u64 = 999_999_999;
 
 struct Pest {
     pause: Arc<AtomicBool>,
@@ -163,6 +169,95 @@ fn inheritance_probe(base: &BTreeMap<i32, String>, problems: &mut Vec<(String, V
         }
     }
     checked
+}
+
+/// Spawn unrelated children while `workers` threads create channels, regions, servers and receive
+/// descriptors in messages without pause. Each child lists what it inherited.
+fn spawn_race(seed: u64, base: &BTreeMap<i32, String>, spawns: usize, workers: usize, problems: &mut Vec<(String, Value)>) -> (usize, usize) {
+    use ipc_channel::ipc::{IpcOneShotServer, IpcReceiverSet, IpcSender};
+    let stop = Arc::new(AtomicBool::new(false));
+    let created = Arc::new(AtomicUsize::new(0));
+    let mut hs = Vec::new();
+    for w in 0..workers {
+        let (stop, created) = (stop.clone(), created.clone());
+        let h = std::thread::Builder::new().name(format!("creator{}", w)).spawn(move || {
+            let mut r = Rng::derive(seed, 0xc11f, w as u64);
+            while !stop.load(Ordering::SeqCst) {
+                match r.below(7) {
+                    0 | 1 => drop(ipc::channel::<u64>()),
+                    2 => {
+                        let g = IpcSharedMemory::from_bytes(&[7u8; 64]);
+                        let g2 = g.clone();
+                        drop((g, g2));
+                    },
+                    3 | 4 => {
+                        // a sender travels in a message and is unpacked by one of the receive calls
+                        if let (Ok((tx, rx)), Ok((t2, r2))) = (ipc::channel::<IpcSender<u64>>(), ipc::channel::<u64>()) {
+                            let _ = tx.send(t2);
+                            match r.below(4) {
+                                0 => drop(rx.recv()),
+                                1 => drop(rx.try_recv()),
+                                2 => drop(rx.try_recv_timeout(std::time::Duration::from_millis(50))),
+                                _ => {
+                                    if let Ok(mut set) = IpcReceiverSet::new() {
+                                        let _ = set.add(rx);
+                                        drop(set.select());
+                                    }
+                                },
+                            }
+                            drop(r2);
+                        }
+                    },
+                    5 => {
+                        if let Ok((server, name)) = IpcOneShotServer::<u8>::new() {
+                            if let Ok(tx) = IpcSender::<u8>::connect(name) {
+                                let _ = tx.send(1);
+                                drop(server.accept());
+                            }
+                        }
+                    },
+                    _ => {
+                        // multi-packet message: the dedicated channel is created inside send
+                        if let Ok((tx, rx)) = ipc::bytes_channel() {
+                            std::thread::scope(|s| {
+                                s.spawn(move || drop(rx.recv()));
+                                let _ = tx.send(&vec![3u8; 300_000]);
+                            });
+                        }
+                    },
+                }
+                created.fetch_add(1, Ordering::Relaxed);
+            }
+        });
+        if let Ok(h) = h {
+            hs.push(h);
+        }
+    }
+    let mut children = 0;
+    let mut seen = BTreeSet::new();
+    for k in 0..spawns {
+        if let Ok(out) = std::process::Command::new(self_exe()).args(["role", "lsfd"]).env_remove("LD_PRELOAD").output() {
+            if !out.status.success() {
+                continue;
+            }
+            children += 1;
+            let text = String::from_utf8_lossy(&out.stdout);
+            for l in text.lines() {
+                let mut it = l.splitn(2, ' ');
+                let fd: i32 = it.next().and_then(|s| s.parse().ok()).unwrap_or(-1);
+                let t = it.next().unwrap_or("");
+                if fd > 2 && fd < 1000 && !base.contains_key(&fd) && seen.insert(classify(t)) {
+                    problems.push((format!("inherited-by-unrelated-child:{}", classify(t)),
+                        json!({"fd": fd, "target": t, "phase": "child spawned while other threads create and receive descriptors", "spawn": k})));
+                }
+            }
+        }
+    }
+    stop.store(true, Ordering::SeqCst);
+    for h in hs {
+        let _ = h.join();
+    }
+    (children, created.load(Ordering::Relaxed))
 }
 
 /// A router with a few routes is created, used and stopped (shutdown and/or proxy drop): once the
@@ -343,6 +438,20 @@ pub fn run(ctx: &Ctx) {
         if rep.nviol.load(Ordering::Relaxed) >= 6 {
             break; // a leak shifts the baseline for every later program, a hang costs a grace period
         }
+    }
+    if is_os() && rep.nviol.load(Ordering::Relaxed) == 0 && ctx.want(RACE_CASE) {
+        let spawns = ctx.opt_u64("race_spawns", if ctx.thorough { 300 } else { 25 }) as usize;
+        let mut problems: Vec<(String, Value)> = Vec::new();
+        let guard = op_begin("spawn-race", RACE_CASE);
+        let (children, created) = spawn_race(ctx.seed ^ ctx.batch, &base_fds, spawns, 4, &mut problems);
+        drop(guard);
+        rep.stat("race_children_spawned", children as i64);
+        rep.stat("race_descriptor_creating_operations", created as i64);
+        let base = json!({"phase": "spawn-race", "variant": variant(), "release": !cfg!(debug_assertions), "children": children, "creating_operations": created});
+        for (k, d) in problems {
+            rep.violation(&format!("C11:{}", k), json!({"ctx": base, "problem": d}), ctx.replay(RACE_CASE));
+        }
+        rep.sample(json!({"ctx": base}));
     }
     let churn = pest.finish();
     rep.stat("pest_descriptor_churn", churn as i64);
